@@ -1,5 +1,5 @@
 (** C17 - Generator payloads are streamed lazily and size mismatches are caught. *)
-From IsoTp Require Import Base.Prelude Model.Layer Spec.ConfigSpec Spec.Segment Proofs.Inv Proofs.LocalP Proofs.TxP Proofs.Events Proofs.LazyP.
+From IsoTp Require Import Base.Prelude Model.Layer Spec.ConfigSpec Spec.Segment Proofs.Inv Proofs.LocalP Proofs.TxP Proofs.Events Proofs.LazyP Model.Micro Proofs.LazyRunP.
 
 (** One consume() pulls at most the requested number of values; a transmit pass calls it at most
     once, for at most one frame worth of payload (tx_data_length bytes). *)
@@ -50,7 +50,28 @@ Theorem C17_cf_pulls_what_it_sends : forall c a s evs rbs r m,
     make_tx_msg c (c_tx_id c Physical) (c_tx_prefix c ++ [Z.lor 0x20 (tx_seqnum s)] ++ payload) = Some m.
 Proof. exact cf_pulls_what_it_sends. Qed.
 
+(** Laziness, run level: along EVERY run of micro-steps from the initial state (any interleaving of
+    send(), transmit passes, received frames, timeouts, ticks, stop/reset calls), the values pulled
+    so far from the generator of the message in transmission are exactly the payload bytes of that
+    message already on the wire - counted by decoding the emitted frames themselves ([wire]) - plus
+    the payload of the one frame the rate limiter is holding back, if any, which is at most one
+    Consecutive Frame's worth; nothing has been pulled from the generators of queued messages. *)
+Theorem C17_lazy_run : forall c, params_ok (c_p c) -> forall t0 ms,
+  let s := fst (mrun c (init_layer c t0) ms) in
+  let G := wire c 0 (snd (mrun c (init_layer c t0) ms)) in
+  pulled s = on_wire s G + held c s /\ 0 <= held c s <= p_tx_dl (c_p c) - 1 - zlen (c_tx_prefix c) /\
+  Forall (fun r => r_consumed r = 0) (tx_queue s).
+Proof. exact lazy_run. Qed.
+
+(** ... as an inductive invariant, from any well-formed state: one step keeps "pulled = on the wire
+    (+ held back)" with the wire count advanced by the frame the step emitted. *)
+Theorem C17_lazy_step : forall c, params_ok (c_p c) -> forall s G m,
+  WF c s -> L c s G -> L c (fst (mstep c s m)) (gstep c s G m).
+Proof. exact L_step. Qed.
+
 Print Assumptions C17_pull_bound.
+Print Assumptions C17_lazy_run.
+Print Assumptions C17_lazy_step.
 Print Assumptions C17_first_frame_pulls.
 Print Assumptions C17_short_at_start.
 Print Assumptions C17_waiting_pass_pulls_nothing.
